@@ -62,6 +62,15 @@ pub trait Answers {
 
 pub struct Real<'a> { pub r: &'a dyn BRemapper }
 
+impl Real<'_> {
+    /// the descriptor `map_method_ref` answers for a method reference whose owner is an array class (None: it refuses)
+    fn method_ref_desc_of_array_owner(&self, m: &MemberRef) -> Option<JS> {
+        let (o, n, d) = (to_java(&m.owner).ok()?, to_java(&m.name).ok()?, to_java(&m.desc).ok()?);
+        let r = duke::tree::method::MethodRef { class: duke::tree::class::ClassName::try_from(o).ok()?, name: duke::tree::method::MethodName::try_from(n).ok()?, desc: duke::tree::method::MethodDescriptor::try_from(d).ok()? };
+        self.r.map_method_ref(&r).ok().map(|x| from_java(x.desc.as_inner()))
+    }
+}
+
 impl Answers for Real<'_> {
     fn class_any(&self, c: &JS) -> Ans<JS> {
         let j = jv(c, "class name")?;
@@ -111,7 +120,15 @@ impl Answers for Real<'_> {
     }
     fn method_ref(&self, m: &MemberRef) -> Ans<MemberRef> {
         let owner = self.class_any(&m.owner)?;
-        if m.owner.0.first() == Some(&b'[') { return Ok(MemberRef { owner, name: m.name.clone(), desc: m.desc.clone() }); }
+        if m.owner.0.first() == Some(&b'[') {
+            // name: kept. descriptor: `map_method_ref` documents "no remapping of the name or descriptor", the remapper's general fall-back for a
+            // member nobody declares is "unchanged name, remapped descriptor"; the statement of C07 only asks for "what the remapper answers".
+            // Both readings are accepted: of the two candidates the one `map_method_ref` itself gives is expected (anything else it may answer
+            // is not accepted - the documented reading is expected then, so the difference shows).
+            let mapped = self.method_desc(&m.desc)?;
+            let desc = if mapped != m.desc && self.method_ref_desc_of_array_owner(m).is_some_and(|d| d == mapped) { mapped } else { m.desc.clone() };
+            return Ok(MemberRef { owner, name: m.name.clone(), desc });
+        }
         let (name, desc) = self.method(&m.owner, &m.name, &m.desc)?;
         Ok(MemberRef { owner, name, desc })
     }
